@@ -35,3 +35,33 @@ func (vc *VC) relevant(fact Fact, o *Obligation) bool {
 	}
 	return vc.reach[[2]int{fact.Blk, o.Blk}]
 }
+
+// loopFrame: a loop with its own modifies clause. Inside it, writes are checked
+// against the loop's frame: the target is in locs or was allocated after the
+// loop was entered (>= bound).
+type loopFrame struct {
+	li    *loopInfo
+	locs  []modLoc
+	bound string
+}
+
+// setCurLoopFrame selects the innermost loop frame containing block b.
+func (vc *VC) setCurLoopFrame(b *ssa.BasicBlock) {
+	vc.curLoopFrame = nil
+	for _, lf := range vc.loopFrames {
+		if lf.li.blocks[b] {
+			if vc.curLoopFrame == nil || len(lf.li.blocks) < len(vc.curLoopFrame.li.blocks) {
+				vc.curLoopFrame = lf
+			}
+		}
+	}
+}
+
+// frameCtx: the modifies set and the allocation bound that writes are currently
+// checked against.
+func (vc *VC) frameCtx() ([]modLoc, string) {
+	if vc.curLoopFrame != nil {
+		return vc.curLoopFrame.locs, vc.curLoopFrame.bound
+	}
+	return vc.topFrame.modLocs, "alloc0"
+}
